@@ -32,6 +32,10 @@ def configs(tier, seed):
     out.append(dict(name="arith-pair", h="arith_pair"))
     for n in range(0, 6 if q else 11):
         out.append(dict(name="pipeline n=%d" % n, h="pipeline", n=n, kmax=12 if q else 50))
+    # no pairs at all (zero or one posterior sample): the chunks still assemble to a complete 0x0 / 1x1 zero matrix
+    for nt in (0, 1):
+        for k in (1, 2, 3):
+            out.append(dict(name="assemble nt=%d k=%d (no pairs)" % (nt, k), h="assemble", nt=nt, k=k, extra=1, plen=2))
     for nt in ((2, 3, 4) if q else (2, 3, 4, 5)):
         for k in range(1, (4 if q else 5) + 1):
             if k > nt * (nt - 1) // 2 + 1:
